@@ -50,7 +50,7 @@ Lemma run_generic_flow o s ax gs :
   run_op gshape gaxes o [mkT s (TBatch (Some ax) gs)] = generic_result_flow o s ax gs.
 Proof.
   intros H. assert (Hax : axes_eqb ax ax = true) by (destruct ax; reflexivity).
-  destruct o as [[|]| | | | | | | | | | | | | | | | | | | | | | | | | | | | | | | ]; try discriminate H;
+  destruct o as [[|]| | | | | | | | | | | | | | | | | | | | | | | | | | | | | | | | ]; try discriminate H;
     unfold run_op, generic_result_flow;
     cbn [nth t_shape t_kind map choose_disp fold_left disp_of existsb insert_disp hd];
     unfold dispatch_batch; cbn [map t_kind t_shape];
